@@ -1157,11 +1157,13 @@ def pages_doc(doc: Doc, fonts_per_page: List[Dict[str, Ref]], shows_per_page: Li
     return doc.write(cat)
 
 
-def descendant_obj(doc: Doc, ros, sub: str = "CIDFontType0", ff2: Optional[bytes] = None) -> Ref:
+def descendant_obj(doc: Doc, ros, sub: str = "CIDFontType0", ff2: Optional[bytes] = None, stray: Optional[Dict[str, Any]] = None) -> Ref:
     return doc.add({
         "Type": N("Font"), "Subtype": N(sub), "BaseFont": N("ABCDEF+Foo"),
         "CIDSystemInfo": {"Registry": ros[0].encode(), "Ordering": ros[1].encode(), "Supplement": ros[2]},
         "FontDescriptor": cid_descriptor(doc, ff2),
+        # keys that mean nothing in a CIDFont dictionary (ISO 32000-1 table 117): the Type0 font's own entries decide
+        **(stray or {}),
     })
 
 
@@ -1210,7 +1212,8 @@ def build_hv(i: int, lay: str):
             if c in flat:
                 codes.append(c)
                 ex.append({"text": ch, "adv": Fraction(-FS if vert else FS), "vert": vert, "tag": "collection-" + ("V" if vert else "H"), "note": f"{name} code {c.hex()} cid {flat[c]}"})
-        fonts[key] = type0_obj(doc, name, descendant_obj(doc, (reg, order, 2)))
+        # the descendant carries a stray /Encoding of the other writing mode: it must lose against the Type0 font's own
+        fonts[key] = type0_obj(doc, name, descendant_obj(doc, (reg, order, 2), stray={"Encoding": N("Identity-H" if vert else "Identity-V")}))
         strings[key] = b"".join(codes)
         exps[key] = ex
     first, second = ("FH", "FV") if lay.startswith("h-first") else ("FV", "FH")
